@@ -214,3 +214,41 @@ pub proof fn lemma_ps_blinded_link(g2: G2Projective, x2: G2Projective, y2s: Seq<
     lemma_pair_pow(s1, b2, g_add(s2, g_mul(s1, bf)), g2, r);
     lemma_pairing_check_form(g_mul(s1, r), b2, g_mul(g_add(s2, g_mul(s1, bf)), r), g2);
 }
+
+/// (a − b) + b == a
+pub proof fn lemma_g_sub_add<G>(a: G, b: G)
+    ensures g_add(g_sub(a, b), b) == a,
+{
+    ax_g_add_assoc(a, g_neg(b), b);
+    ax_g_add_comm(g_neg(b), b);
+    ax_g_add_neg(b);
+    ax_g_add_zero(a);
+}
+
+/// The pairing link of a signature proof read backwards (what a verifier learns): if the shown pair satisfies
+/// e(s1, X~ + C) == e(s2, g~) for C = g~·bf + Σ Y~_i·m_i and s1 != 1, then (s1, s2 − s1·bf) is a valid signature on m.
+pub proof fn lemma_ps_unblind_link(g2: G2Projective, x2: G2Projective, y2s: Seq<G2Projective>, m: Seq<Scalar>, s1: G1Projective, s2: G1Projective, bf: Scalar)
+    requires s1 != g_zero::<G1Projective>(), ps_pairing_ok(s1, s2, g_add(x2, com(g2, y2s, m, bf)), g2),
+    ensures ps_valid(g2, x2, y2s, m, s1, g_sub(s2, g_mul(s1, bf))),   // @ob ps.shown-signature-unblinds-to-a-valid-signature-on-the-committed-message [C02 C11]
+{
+    let base = ps_base(x2, y2s, m);
+    let u = g_sub(s2, g_mul(s1, bf));
+    let p = pair(g_mul(s1, bf), g2);
+    // X~ + (g~·bf + Σ) == (X~ + Σ) + g~·bf
+    ax_g_add_comm(g_mul(g2, bf), ip(y2s, m));
+    ax_g_add_assoc(x2, ip(y2s, m), g_mul(g2, bf));
+    let b2 = g_add(base, g_mul(g2, bf));
+    assert(g_add(x2, com(g2, y2s, m, bf)) == b2);
+    lemma_pairing_check_form(s1, b2, s2, g2);
+    // e(s1, b2) == e(s1, base)·e(s1·bf, g~)
+    ax_pair_add_right(s1, base, g_mul(g2, bf));
+    ax_pair_scalar(s1, g2, bf);
+    // e(s2, g~) == e(u, g~)·e(s1·bf, g~)
+    lemma_g_sub_add(s2, g_mul(s1, bf));
+    ax_pair_add_left(u, g_mul(s1, bf), g2);
+    assert(gt_mul(pair(s1, base), p) == gt_mul(pair(u, g2), p));
+    ax_gt_mul_comm(pair(s1, base), p);
+    ax_gt_mul_comm(pair(u, g2), p);
+    lemma_gt_cancel_left(p, pair(s1, base), pair(u, g2));
+    lemma_pairing_check_form(s1, base, u, g2);
+}
